@@ -180,6 +180,9 @@ func checkC07(sc *Scenario, res *RunResult, t *Truth) []Violation {
 		}
 	}
 	for rn, n := range launched {
+		if rn == "nu" && sc.Arm == "live" {
+			continue // added by the update and to run (C14 says how often)
+		}
 		if _, ok := wantReps[rn]; !ok {
 			add("unselected-process-launched", "", fmt.Sprintf("%s was launched %d times although it is not to run (to_run=%v no_deps=%v namespaces=%v; disabled/foreground/other namespace or not selected)", rn, n, sc.ToRun, sc.NoDeps, sc.Namespaces), 0)
 			return vs
@@ -352,12 +355,46 @@ func genC07(r *R, sc *Scenario, tier string) {
 			}
 		}
 	}
+	sc.Arm = "plan"
+	if cyc, _ := c07Cycle(spec); !cyc && c07Dangling(spec) == "" && len(sc.ToRun) == 0 && len(sc.Namespaces) == 0 && r.P(250) {
+		// live arm: the project keeps running, and processes that are not to be started by
+		// themselves enter it later - through a scale request or a project update
+		sc.Arm = "live"
+		keep := &ProcSpec{Name: "keep", Token: "keep"}
+		sc.Scripts["keep"] = &TokenScript{Launches: []simos.Script{{LifeMs: -1}}}
+		spec.Procs = append(spec.Procs, keep)
+		if r.P(500) {
+			fg := &ProcSpec{Name: "fg", Token: "fg.{{.PC_REPLICA_NUM}}", Foreground: true}
+			if r.P(300) {
+				fg.Foreground, fg.Disabled = false, true
+			}
+			sc.Scripts["fg.*"] = &TokenScript{Launches: []simos.Script{{LifeMs: 100}}}
+			spec.Procs = append(spec.Procs, fg)
+			sc.Clients = append(sc.Clients, Client{Name: "live", Ops: []Op{{AtMs: 1000, Op: "scale", Arg: "fg", N: r.Range(2, 3)}}})
+		} else {
+			up := cloneSpec(spec)
+			up.Procs = append(up.Procs, &ProcSpec{Name: "fgnew", Token: "fgnew", Foreground: true}, &ProcSpec{Name: "disnew", Token: "disnew", Disabled: true}, &ProcSpec{Name: "nu", Token: "nu"})
+			for _, nm := range []string{"fgnew", "disnew", "nu"} {
+				sc.Scripts[nm] = &TokenScript{Launches: []simos.Script{{LifeMs: 100}}}
+			}
+			if len(spec.Procs) > 1 && r.P(500) {
+				// an existing process that is not to be started changes as well
+				for _, q := range up.Procs {
+					if q.Foreground || q.Disabled {
+						q.Env = append(q.Env, "UPD=1")
+						break
+					}
+				}
+			}
+			sc.Updates = []*ProjectSpec{up}
+			sc.Clients = append(sc.Clients, Client{Name: "live", Ops: []Op{{AtMs: 1000, Op: Pick(r, "update", "reload"), N: 0}}})
+		}
+	}
 	sc.Strategy = genStrategy(r)
 	sc.Strategy.StallPermille = 0
 	sc.IterMode = Pick(r, 0, 0, 0, 1, 2, 3)
 	sc.IterRot = r.Intn(7)
 	sc.RunForMs = 20000
 	sc.QuietMs = 500
-	sc.Arm = "plan"
 	_ = strings.Join
 }
